@@ -145,7 +145,7 @@ fn nt_c12(l: &[&'static str], _e: &Ev, _d: &DiffResult) -> bool {
 /// `==` and the map must agree on every pair of keys, whatever `==` answers: the program prints only
 /// the truth value of "k2 denotes k1's entry exactly when k1 == k2", so no model of equality (range
 /// identity and the interpreter's range cache included) is needed to judge it.
-fn key_pairs_case(bytes: &[u8]) -> String {
+pub fn key_pairs_case(bytes: &[u8]) -> String {
     use crate::rd::Rd;
     let mut rd = Rd::new(bytes, 2_000);
     const KEYS: &[&str] = &[
